@@ -119,6 +119,8 @@ type fieldExpr struct {
 	q     [][]string
 	shape string
 	bad   bool // unknown names / malformed: either error or empty accepted, never panic
+	// invalid: not an expression at all, must be an error
+	invalid bool
 }
 
 func fieldExprs(defs []meta.Definition) []fieldExpr {
@@ -164,8 +166,12 @@ func fieldExprs(defs []meta.Definition) []fieldExpr {
 			}
 		}
 	}
-	for _, bad := range []string{"zz", "zz/yy", "(", ")", "a(", "a;;b", ";", "/", "a//b", "a(b", "((a))"} {
+	for _, bad := range []string{"zz", "zz/yy", "a;;b", ";", "/", "a//b", "((a))"} {
 		out = append(out, fieldExpr{text: bad, shape: "unknown-or-malformed", bad: true})
+	}
+	// parentheses that do not pair up and groups of nothing are not expressions
+	for _, bad := range []string{"(", ")", "a(", "a(b", "a)zzz", "a(b;c))", "a)", "a()", "()", "a(b;c", "a(b))("} {
+		out = append(out, fieldExpr{text: bad, shape: "unbalanced-or-empty-group", invalid: true})
 	}
 	return out
 }
@@ -207,7 +213,7 @@ func c07Queries(param string, m *meta.Module, defs []meta.Definition, t *model.T
 		add(c07Query{text: "depth=1.5", invalid: true, shape: "depth=non-numeric"})
 	case "fields", "fc.xfields":
 		for _, fe := range fieldExprs(defs) {
-			q := c07Query{text: param + "=" + url.QueryEscape(fe.text), shape: param + "=" + fe.shape, lenient: fe.bad}
+			q := c07Query{text: param + "=" + url.QueryEscape(fe.text), shape: param + "=" + fe.shape, lenient: fe.bad, invalid: fe.invalid}
 			if param == "fields" {
 				q.params.Fields = fe.q
 				if fe.q == nil {
@@ -244,8 +250,8 @@ func c07Queries(param string, m *meta.Module, defs []meta.Definition, t *model.T
 				add(c07Query{text: fmt.Sprintf("fc.range=%s!%d-", url.QueryEscape(strings.Join(p, "/")), s), params: model.Params{Range: &model.Window{List: p, Start: s, End: -1}}, shape: fmt.Sprintf("fc.range=%s-list!s-open", map[bool]string{true: "top", false: "nested"}[len(p) == 1]), rangeW: true})
 			}
 		}
-		for _, bad := range []string{"l", "l!", "l!x-y", "l!1-x", "!1-2", "l!-1", "l!1-2-3", "l!2-1"} {
-			add(c07Query{text: "fc.range=" + url.QueryEscape(bad), invalid: bad != "l!2-1" && bad != "l!1-2-3" && bad != "!1-2", lenient: bad == "l!2-1" || bad == "l!1-2-3" || bad == "!1-2", shape: "fc.range=malformed"})
+		for _, bad := range []string{"l", "l!", "l!x-y", "l!1-x", "!1-2", "l!-1", "l!1-2-3", "l!2-1", "l!1-2-", "l!1--2", "l!1-2x", "l!1 -2"} {
+			add(c07Query{text: "fc.range=" + url.QueryEscape(bad), invalid: bad != "l!2-1" && bad != "!1-2", lenient: bad == "l!2-1" || bad == "!1-2", shape: "fc.range=malformed"})
 		}
 	case "fc.max-node-count":
 		containers, _ := model.CountNodes(defs, t)
